@@ -352,10 +352,19 @@ async def explore(tier, seed, m):
         except Exception as ex:
             st["problems"].append({"what": [f"decorated schema refused: {type(ex).__name__}: {ex}"[:300]], "sdl": g.sdl()}); continue
         model = g.model()
+        again = None
         for ri in range(nreq):
-            rg = ReqGen(g, rng)
-            sels = rg.selections(g.objs[0])
-            q = rg.text(sels)
+            if again is not None:
+                # the same document once more with other values for the directives' tag variables and the
+                # other variables: every hook must get THIS request's coerced directive arguments
+                rg, sels, q = again; again = None
+                rg.values = {k: ((v + "2") if k.startswith("t") else rg.json_value(next(d["type"] for d in rg.vardefs if d["name"] == k)) if rng.random() < 0.5 else v) for k, v in rg.values.items()}
+                st["repeated_documents"] = st.get("repeated_documents", 0) + 1
+            else:
+                rg = ReqGen(g, rng)
+                sels = rg.selections(g.objs[0])
+                q = rg.text(sels)
+                if rg.values and rng.random() < 0.35: again = (rg, sels, q)
             ctx = {"log": [], "calls": []}
             try:
                 resp = await engine.execute(q, variables=dict(rg.values), context=ctx)
@@ -419,7 +428,7 @@ if __name__ == "__main__":
         "evaluations": st["evaluations"], "distinct_nontrivial": len(st["nontrivial"]),
         "rule": "generated schemas decorated with 0-3 tagging directives (two marking all hooks, one marking a random subset of hooks, two log-only; tag argument literal or defaulted) on scalars, enums (log-only at type level), enum values, input objects, input fields, arguments, fields and object types; requests with arguments as literals, whole variables, variables nested in lists / input objects, omitted (SDL defaults), nulls, single values for lists; query-side field directives with literal / variable / defaulted tags; repeated response keys with different directives; compared with the Lean model: `data` (tags are non-commuting: nesting and stage order are visible) and the multiset of hook invocations (kind, directive, coerced tag, phase, value seen); non-trivial = at least two hook invocations",
         "hook_invocations_by_kind": dict(st["hook_calls"]), "deepest_hook_nesting": st["max_nesting"], "requests_with_variables": st["with_variables"],
-        "outside_model_universe": st["unsupported"], "requests_with_engine_errors": st["engine_errors"],
+        "outside_model_universe": st["unsupported"], "documents_repeated_with_other_variables": st.get("repeated_documents", 0), "requests_with_engine_errors": st["engine_errors"],
         "correspondence": {"disagreements": len(st["disagreements"])}, "problems": len(st["problems"]), "samples": st["samples"] or [{"note": "none"}]})
     sys.exit(v.finish("proof", cov, ["hooks are tagging hooks that call the next stage exactly once and never raise; abstract types (interface / union), introspection, schema-level and collection hooks (on_schema_execution, on_field_collection, …) are not modelled: partial",
                                      "requests with coercion errors are outside the model (skipped)"]))
